@@ -2,6 +2,7 @@
 //   form = fut     co_await std::move(f)            (n = 1, unique)         sfut  co_await shared future (n = 1)
 //          await   co_await Await(f...)             sticky  co_await AwaitSticky(f...)      on  co_await AwaitOn(e, f...)
 //   n    = 1 | 2                dyn  = 1: iterator forms (begin, count) for n = 2
+//   k    = 2 (form sfut only): two coroutines (threads K and L) await the same SharedFuture
 //   outs = one letter per producer: v value, x exception
 //   exec = here (runs the job where it is submitted) | stop (rejects: Drop)   -- the executor of sticky / on
 // K starts the coroutine: [co_await On(e) for sticky], the await, then it reports "resumed <outcomes>" and returns.
@@ -81,7 +82,7 @@ struct Env {
   }
 };
 
-yaclib::Future<int> Coro(Env& env) {
+yaclib::Future<int> Coro(Env& env, int id) {
   Local local;
   if (env.form == "sticky") {
     co_await On(env.exec);  // the coroutine's own executor; it may stop accepting afterwards
@@ -96,11 +97,12 @@ yaclib::Future<int> Coro(Env& env) {
       vrt::Obs("resumed", std::string("exc:") + e.what());
     }
   } else if (env.form == "sfut") {
+    // several coroutines may await the same SharedFuture: each reports "<id>:<outcome>"
     try {
       Payload p = co_await env.sf;
-      vrt::Obs("resumed", vh::Desc(p));
+      vrt::Obs("resumed", std::to_string(id) + ":" + vh::Desc(p));
     } catch (const vh::TestError& e) {
-      vrt::Obs("resumed", std::string("exc:") + e.what());
+      vrt::Obs("resumed", std::to_string(id) + ":exc:" + e.what());
     }
   } else if (env.form == "await") {
     if (env.n == 1) {
@@ -171,6 +173,8 @@ VRT_SCENARIO(aw, "a coroutine awaiting 1-2 futures (co_await, Await, AwaitSticky
     }
   }
   std::optional<yaclib::Future<int>> result;
+  std::optional<yaclib::Future<int>> result2;
+  const int coros = static_cast<int>(ctx.ParamInt("k", 1));
   std::vector<vh::Gate> gates(static_cast<std::size_t>(env.n));
   for (int i = 0; i != env.n; ++i) {
     vrt::NameField(&gates[static_cast<std::size_t>(i)].flag, "gate" + std::to_string(i + 1));
@@ -193,12 +197,22 @@ VRT_SCENARIO(aw, "a coroutine awaiting 1-2 futures (co_await, Await, AwaitSticky
   }
   ctx.Spawn("K", [&] {
     vrt::Api api{"co_await"};
-    result.emplace(Coro(env));
+    result.emplace(Coro(env, 1));
   });
+  if (coros == 2) {
+    ctx.Spawn("L", [&] {
+      vrt::Api api{"co_await"};
+      result2.emplace(Coro(env, 2));
+    });
+  }
   ctx.JoinAll();
   if (result) {
     ctx.Final("result", result->Ready() ? vh::Desc(std::as_const(*result).Touch()) : std::string("not_ready"));
     result.reset();
+  }
+  if (result2) {
+    ctx.Final("result2", result2->Ready() ? vh::Desc(std::as_const(*result2).Touch()) : std::string("not_ready"));
+    result2.reset();
   }
   ctx.Final("locals", Local::dtors);
   ctx.Final("locals_live", Local::live);
